@@ -18,6 +18,7 @@ mod c08;
 mod c13;
 mod c12;
 mod mutate;
+mod idioms;
 mod c15;
 mod c19;
 
@@ -103,6 +104,8 @@ fn main() {
         "dev-gen" => dev::gen_stats(&env, &rest),
         "dev-show" => dev::show(&env, &rest),
         "dev-run" => dev::run_file(&env, &rest),
+        "dev-idioms" => dev::idioms(&env, &rest),
+        "dev-find" => dev::find(&env, &rest),
         "dev-load" => dev::load_file(&env, &rest),
         "C04" => c04::run(&env),
         "C02" => c02::run(&env),
